@@ -400,10 +400,27 @@ def run_positive_number(schema):
     return out, rec, None
 
 
+def num_ok(schema, n):
+    """the numeric keyword family on a number (both the draft-4 boolean and the numeric exclusive forms)"""
+    mn, mx = schema.get("minimum"), schema.get("maximum")
+    en, ex, mo = schema.get("exclusiveMinimum"), schema.get("exclusiveMaximum"), schema.get("multipleOf")
+    isnum = lambda x: isinstance(x, (int, float)) and not isinstance(x, bool)  # noqa: E731
+    if isnum(mn) and not (mn < n if en is True else mn <= n):
+        return False
+    if isnum(en) and not en < n:
+        return False
+    if isnum(mx) and not (n < mx if ex is True else n <= mx):
+        return False
+    if isnum(ex) and not n < ex:
+        return False
+    if isnum(mo) and mo != 0 and (n / mo) != int(n / mo):
+        return False
+    return True
+
+
 def int_satisfiable(schema):
-    """is there an integer satisfying the numeric keywords? (window search around the bounds; grid bounds are tiny)"""
-    v = jsonschema.Draft4Validator(schema) if draft_of(schema) == "4" else jsonschema.Draft202012Validator(schema)
-    return any(v.is_valid(n) for n in range(-40, 41))
+    """is there an integer satisfying the numeric keywords? (window search; the generators keep bounds small)"""
+    return any(num_ok(schema, n) for n in range(-60, 61))
 
 
 def detect_number_variants(chk):
@@ -703,6 +720,51 @@ def has_fractional_keyword(schema):
     return fr
 
 
+def json_type(v):
+    if v is None:
+        return "null"
+    if isinstance(v, bool):
+        return "boolean"
+    if isinstance(v, (int, float)):
+        return "number"
+    if isinstance(v, str):
+        return "string"
+    if isinstance(v, list):
+        return "array"
+    return "object"
+
+
+def value_at(value, schema_parts):
+    """the part of an (object / array-wrapped) value that a schema path like properties/a/items points at"""
+    v = value
+    i = 0
+    while i < len(schema_parts):
+        p = schema_parts[i]
+        if p == "properties" and i + 1 < len(schema_parts) and isinstance(v, dict) and schema_parts[i + 1] in v:
+            v = v[schema_parts[i + 1]]
+            i += 2
+        elif p == "items" and isinstance(v, list) and v:
+            v = v[0]
+            i += 1
+        else:
+            i += 1
+    return v
+
+
+def member_of_some_enum(schema, value):
+    hit = False
+
+    def fn(n):
+        nonlocal hit
+        if isinstance(n, dict):
+            if isinstance(n.get("enum"), list) and any(py_same(value, x) for x in n["enum"]):
+                hit = True
+            if "const" in n and py_same(value, n["const"]):
+                hit = True
+    G._walk(schema, fn)
+    return hit
+
+
 def oracle_shape(path):
     return (f"generate_from_schema:{path}" if path.startswith("from-schema") else
             f"generate_from_schema:{path}-ignores-sibling-keywords")
@@ -741,15 +803,12 @@ def shape_of_violation(schema, o, rec):
         comb_at = next((i for i in range(len(parts) - 1, -1, -1) if parts[i] in COMBINATORS), None)   # innermost branch
         if comb_at is not None:
             # the branch the value was negated against must itself reject (the relevant part of) the value
-            branch = path_get(schema, "/" + "/".join(parts[: comb_at + 2] + ["x"]))
-            inner_value = value
-            for p in parts[:comb_at]:
-                if p == "properties":
-                    continue
-                if p == "items" and isinstance(inner_value, list) and inner_value:
-                    inner_value = inner_value[0]
-                elif isinstance(inner_value, dict) and p in inner_value:
-                    inner_value = inner_value[p]
+            if comb_at + 1 < len(parts) and parts[comb_at + 1].isdigit():
+                branch = path_get(schema, "/" + "/".join(parts[: comb_at + 2] + ["x"]))
+            else:   # allOf with several members is canonicalised first: the "branch" is the merged allOf itself
+                holder = path_get(schema, "/" + "/".join(parts[: comb_at] + ["x"]))
+                branch = {"allOf": holder.get("allOf")} if isinstance(holder, dict) else None
+            inner_value = value_at(value, parts[:comb_at])
             if branch is not None and py_valid(branch, inner_value) is False:
                 return "negative-of-one-branch-accepted-by-schema"
         if inner in ("greater-than-maximum", "smaller-than-minimum") and embedded_bool(value):
@@ -764,19 +823,28 @@ def shape_of_violation(schema, o, rec):
             return "negative-format-not-checked"
         kw = parts[-1] if parts else ""
         if isinstance(node, dict) and kw in FAMILY:
-            ts = types_of(node)
-            fam = FAMILY[kw]
-            if ts and fam not in ts and not (fam == "number" and "integer" in ts):
+            # the value the oracle returned for the negated request is not of the keyword's JSON type at all
+            inner_value = value_at(value, parts[:-1])
+            if json_type(inner_value) != FAMILY[kw]:
                 return "negated-keyword-not-applicable-to-declared-type"
         return f"unexplained:negative:{inner}"
     # ---- positive value rejected by the schema
     if schema is False:
         return "false-schema-treated-as-accepting"
+    if inner in ("enum-value", "const-value") and top in ("enum-value", "const-value") and member_of_some_enum(schema, value):
+        return "enum-or-const-value-emitted-unchecked"
     if contains_key(schema, COMBINATORS):
         # right for the combinator-free schema or for one branch, wrong for the whole
         cands = [erase(schema, COMBINATORS)] + branches_of(schema)
         if any(py_valid(c, value) is True for c in cands if isinstance(c, (dict, bool))):
             return "positive-next-to-combinator-rejected"
+        # wrong already for the branch it was generated for: the cause sits inside that branch
+        for b_ in sdict.get("anyOf", []) + sdict.get("oneOf", []) + sdict.get("allOf", []) if all(
+                isinstance(sdict.get(k_, []), list) for k_ in ("anyOf", "oneOf", "allOf")) else []:
+            if isinstance(b_, dict):
+                sub = shape_of_violation(b_, o, rec)
+                if not sub.startswith("unexplained"):
+                    return sub
     # an object whose member is rejected by that member's own schema: the cause sits one level down
     props = sdict.get("properties")
     if isinstance(value, dict) and isinstance(props, dict):
@@ -788,8 +856,7 @@ def shape_of_violation(schema, o, rec):
         for v in value:
             if py_valid(sdict["items"], v) is False:
                 return shape_of_violation(sdict["items"], {**o, "value": v, "desc": "valid-array"}, rec)
-    if inner in ("enum-value", "const-value") and (any(py_same(value, x) for x in sdict.get("enum", []) if isinstance(sdict.get("enum"), list))
-                                                   or ("const" in sdict and py_same(value, sdict["const"]))):
+    if inner in ("enum-value", "const-value") and member_of_some_enum(schema, value):
         return "enum-or-const-value-emitted-unchecked"
     if bounds_unsatisfiable(schema) and (py_valid(erase_side(schema, "max"), value) is True or py_valid(erase_side(schema, "min"), value) is True):
         return "positive-on-crossing-bounds"
@@ -802,11 +869,16 @@ def shape_of_violation(schema, o, rec):
             return "non-integer-boundary-for-integer-type"
         if contains_key(schema, ("exclusiveMinimum", "exclusiveMaximum")) and has_fractional_keyword(schema):
             return "number-exclusive-bound-misread"   # integer-valued keywords are attributed through the model instead
+        if has_fractional_keyword(schema) and inner == "near-boundary-number" and sdict.get("maximum") == 0 \
+                and isinstance(value, (int, float)) and value > 0:
+            return "number-zero-bound-treated-as-absent"
     if top.startswith("object") or top == "valid-object":
         req = sdict.get("required")
         if isinstance(req, list) and isinstance(props, dict) or isinstance(req, list) and props is None:
             undeclared = [n for n in req if n not in (props or {})]
-            if undeclared and py_valid({**sdict, "required": [n for n in req if n not in undeclared]}, value) is True:
+            relaxed = {**sdict, "required": [n for n in req if n not in undeclared]}
+            if undeclared and (py_valid(relaxed, value) is True or py_valid(
+                    erase_many(relaxed, ("minProperties", "maxProperties", "patternProperties", "additionalProperties")), value) is True):
                 return "object-template-overrides-required"
         for kw in ("minProperties", "maxProperties", "patternProperties", "additionalProperties"):
             if kw in sdict and py_valid(erase_top(sdict, kw), value) is True:
@@ -844,6 +916,10 @@ def has_integer_type_with_fraction(schema, value):
             it = True
     G._walk(schema, sfn)
     return fr and it
+
+
+def erase_many(sdict, kws):
+    return {k: v for k, v in sdict.items() if k not in kws}
 
 
 def erase_top(sdict, kw):
@@ -959,7 +1035,8 @@ def resolve_cover_violations(chk, drv, pending):
         sig = sigs.get(idx)
         if sig is None:
             shape = shape_of_violation(schema, o, rec)
-            sig = KF_EXCL if shape == "number-exclusive-bound-misread" else f"C03:cover_schema_iter:{shape}"
+            sig = (KF_EXCL if shape == "number-exclusive-bound-misread" else
+                   KF_ZERO if shape == "number-zero-bound-treated-as-absent" else f"C03:cover_schema_iter:{shape}")
         what = (f"cover_schema_iter labels {o['value']!r} ('{o['text']}', location {o['loc']}) {o['mode']} but the schema "
                 f"{'rejects' if o['mode'] == 'positive' else 'accepts'} it")
         chk.violation(sig, what, {"mechanism": "cover", "schema": schema, "modes": mk, "location": loc,
@@ -1301,15 +1378,39 @@ def run(chk):
     tm.lap("selfcheck")
     vz, vx = detect_number_variants(chk)
     chk.assumptions += [
-        "oracle: a value returned by CoverageContext.generate_from_schema(s) is valid for s (hypothesis-jsonschema contract); "
-        "the recorded answers of the real run are handed to the model in call order",
-        "numbers: the model covers integer-valued numeric keywords and draft-4 booleans; other shapes are replayed only",
+        "oracle contract: a value returned by CoverageContext.generate_from_schema(s) is valid for s (hypothesis-jsonschema) and a "
+        "_negative_type draw has the JSON type of its strategy (Hypothesis); the recorded answers of the real run are handed to "
+        "the model in call order, and every answer is itself judged against its request by the replay (violations: F33a-d)",
+        "case-level theorems assume the value streams are well-formed (WF): first value of each generator positive when positives "
+        "are requested, all values negative otherwise; the replay checks every real case without that assumption",
+        "theorems about validF are for plain JSON Schema (env.oas = none); regex and format semantics are oracles (Python re / "
+        "jsonschema FORMAT_CHECKER tables)",
+    ]
+    chk.trusted += [
+        "lean/SV/Spec/JsonSchema.lean (shared reference semantics; differentially checked against jsonschema on every run)",
+        "harness/corr/c03.py: recording of the oracle, description-class table, content oracle of the case mechanism, "
+        "violation classifier (signatures only; never decides whether a label is wrong)",
     ]
     chk.proved += [
-        "positive_number_valid: repaired _positive_number emits only conforming values on every satisfiable integer/number "
-        "schema over the numeric keyword family (all bounds, both exclusive forms, multipleOf > 0)",
-        "positive_number_partial: the snapshot's _positive_number is sound away from its two defect sites (F6 zero bound, F7 exclusive forms)",
-        "F6/F7 witnesses and positive_number_full_false_* (kernel-checked counterexamples)",
+        "case_labels_repaired: repaired _iter_coverage_cases labels every case and every component consistently with its contents "
+        "(all operations / mode sets / well-formed value streams); case_labels_asFound_partial (snapshot, away from F8)",
+        "cover_numeric_labels: end-to-end label soundness of cover_schema_iter on every satisfiable plain integer/number schema "
+        "(repaired generator, all modes, oracle contract)",
+        "positive_number_valid / positive_number_partial (F6, F7 sites), positive_string_valid (non-crossing length bounds), "
+        "numeric_negatives_as_described, cover_positive_only / cover_negative_only",
+        "kernel-checked counterexamples: F6, F7 (boolean and numeric), F7b, F8, and *_full_false for snapshot and repaired variants",
+    ]
+    chk.partial += [
+        "label soundness of the array / object / enum / const / pattern / format arms and of anyOf/oneOf/allOf descents is not "
+        "proved (false for the descents: F9a/F9b); these arms are modelled, tied by correspondence and judged by replay",
+        "the repaired case-level statement needs WF; without it the full statement is false (case_labels_full_false_repaired: F8b/F8c)",
+        "repaired _positive_number still mislabels on schemas no integer satisfies (positive_number_full_false_repaired: F6c)",
+    ]
+    chk.sampled_only += [
+        "schemas with fractional numeric keywords, pattern+length combinations (update_quantifier), allOf with several members, "
+        "patternProperties: outside the model, replayed only",
+        "what the oracle (hypothesis-jsonschema / Hypothesis) returns: recorded, its contract is checked per call, not proved",
+        "stringification/serialisation of values into query/header/cookie/path containers (F9c is judged on the real containers)",
     ]
     grid = list(numeric_grid(chk.thorough))
     positive_number_mechanism(chk, drv, grid, "positive_number:grid", vz, vx)
